@@ -153,4 +153,121 @@ Section More.
       destruct (sp_he faces (ct x) (cv x)) as [y|] eqn:E; [|discriminate]. inversion Ec.
       apply (sp_he_some faces) in E as (Hy & _). exists y. auto.
   Qed.
+
+  (* ---------------------------------------------------------------- uncached reads *)
+  Lemma face_to_vertices_correct F : p_face_to_vertices m f F = of_opt EIndex (zth faces F).
+  Proof.
+    unfold p_face_to_vertices, p_face_at. rewrite (guard_ok m f T HT). destruct Hm as (_ & Ef & _). rewrite Ef. reflexivity.
+  Qed.
+
+  Lemma edge_to_vertices_correct E : p_edge_to_vertices m f E = of_opt EIndex (zth (m_edges m) E).
+  Proof. unfold p_edge_to_vertices, p_edge_at. rewrite (guard_ok m f T HT). reflexivity. Qed.
+
+  (* the other end of edge E seen from V: None when V is not an end of E *)
+  Definition sp_other_edge_end (edges : list (Z * Z)) (E V : Z) : res (option Z) :=
+    match zth edges E with
+    | Some (A, B) => Ok (if V =? A then Some B else if V =? B then Some A else None)
+    | None => Err EIndex
+    end.
+  Lemma other_edge_end_correct E V : p_other_edge_end m f E V = sp_other_edge_end (m_edges m) E V.
+  Proof.
+    unfold p_other_edge_end, p_edge_at, sp_other_edge_end. rewrite (guard_ok m f T HT). cbn [bind].
+    destruct (zth (m_edges m) E) as [[A B]|]; reflexivity.
+  Qed.
+
+  (* position of the first occurrence *)
+  Lemma index_of_spec V l : forall k,
+    match index_of V l k with
+    | Some i => k <= i /\ zth l (i - k) = Some V /\ (forall j, 0 <= j < i - k -> zth l j <> Some V)
+    | None => ~ In V l
+    end.
+  Proof.
+    induction l as [|x t IH]; intros k; cbn [index_of]; [intros []|].
+    destruct (Z.eqb_spec x V) as [->|N].
+    - split; [lia|]. replace (k - k) with 0 by lia. split; [reflexivity|]. intros j Hj. lia.
+    - specialize (IH (k + 1)). destruct (index_of V t (k + 1)) as [i|].
+      + destruct IH as (H1 & H2 & H3). split; [lia|]. split.
+        * rewrite zth_cons_S by lia. replace (i - k - 1) with (i - (k + 1)) by lia. exact H2.
+        * intros j Hj. destruct (Z.eq_dec j 0) as [->|Nj]; [cbn; congruence|].
+          rewrite zth_cons_S by lia. apply H3. lia.
+      + intros [E|Hin]; [congruence|contradiction].
+  Qed.
+
+  Lemma in_face_index_correct F V lF :
+    zth faces F = Some lF ->
+    exists r, p_in_face_index m f F V = Ok r /\
+      match r with
+      | Some i => zth lF i = Some V /\ (forall j, 0 <= j < i -> zth lF j <> Some V)
+      | None => ~ In V lF
+      end.
+  Proof.
+    intros Ez. unfold p_in_face_index, p_face_at. rewrite (guard_ok m f T HT). destruct Hm as (_ & Ef & _). rewrite Ef, Ez.
+    cbn [of_opt bind]. eexists. split; [reflexivity|]. pose proof (index_of_spec V lF 0) as H.
+    destruct (index_of V lF 0) as [i|]; [|exact H]. destruct H as (H1 & H2 & H3).
+    replace (i - 0) with i in * by lia. split; assumption.
+  Qed.
+
+  (* ---------------------------------------------------------------- opposite face with local indices, common edge *)
+  Definition sp_side (a b : Z) : option Z * option Z * option Z :=
+    match sp_he faces a b with
+    | Some x => (Some (cf x), Some (ci x), Some ((ci x + 1) mod cn x))
+    | None => (None, None, None)
+    end.
+  (* across edge (u,v) from face F: the other face with the local indices of u and of v in it *)
+  Definition sp_opposite_face_inds (u v F : Z) : list (option Z) :=
+    let '(F1, u1, v1) := sp_side u v in
+    let '(F2, v2, u2) := sp_side v u in
+    if oz_eqb F1 F then [F2; u2; v2] else if oz_eqb F2 F then [F1; u1; v1] else [None; None; None].
+
+  Lemma opposite_face_inds_correct u v F : p_opposite_face_inds m f u v F = Ok (sp_opposite_face_inds u v F).
+  Proof.
+    unfold p_opposite_face_inds. rewrite (guard_ok m f T HT).
+    rewrite !(direct_face_inds_correct nv faces m f T Hwf Hm HT). cbn [bind].
+    unfold sp_opposite_face_inds, sp_side, sp_direct_face_inds.
+    destruct (sp_he faces u v), (sp_he faces v u); reflexivity.
+  Qed.
+
+  Lemma side_corner_of_face F lF i :
+    zth faces F = Some lF -> 0 <= i < zlen lF ->
+    exists x, In x (all_corners faces) /\ cf x = F /\ ci x = i /\ zth lF i = Some (cv x)
+              /\ zth lF ((i + 1) mod zlen lF) = Some (ct x).
+  Proof.
+    intros Ez Hi. destruct (zth_in_range lF i Hi) as (v & Ev).
+    destruct (zth_in_range lF ((i + 1) mod zlen lF)) as (w & Ew); [apply Z.mod_pos_bound; lia|].
+    exists (mkC (off faces (Z.to_nat F) + i) v F i (zlen lF) (zth_d lF ((i + 1) mod zlen lF)) (zth_d lF ((i - 1) mod zlen lF))).
+    cbn [cf ci cv ct]. rewrite (zth_d_Some _ _ _ Ew). repeat split; auto.
+    apply all_corners_In. exists lF. cbn. rewrite (zth_d_Some _ _ _ Ew). repeat split; auto.
+  Qed.
+
+  (* the first side of face iF1 (in the order of its sides) across which lies face iF2, as a sorted vertex pair *)
+  Fixpoint sp_common_edge_loop (lF : list Z) (iF2 : Z) (is : list Z) : list (option Z) :=
+    match is with
+    | [] => [None; None]
+    | i :: t =>
+        let A := zth_d lF i in
+        let B := zth_d lF ((i + 1) mod zlen lF) in
+        if oz_eqb (sp_direct_face faces B A) iF2
+        then (let k := keyify2 A B in [Some (fst k); Some (snd k)])
+        else sp_common_edge_loop lF iF2 t
+    end.
+
+  Lemma common_edge_correct iF1 iF2 lF :
+    zth faces iF1 = Some lF ->
+    p_common_edge m f iF1 iF2 = Ok (sp_common_edge_loop lF iF2 (zrange (zlen lF))).
+  Proof.
+    intros Ez. unfold p_common_edge, p_face_at. rewrite (guard_ok m f T HT). destruct Hm as (_ & Ef & _). rewrite Ef, Ez.
+    cbn [of_opt bind].
+    assert (G : forall is, (forall i, In i is -> 0 <= i < zlen lF) ->
+                p_common_edge_loop m f lF (zlen lF) iF1 iF2 is = Ok (sp_common_edge_loop lF iF2 is)).
+    { induction is as [|i t IH]; intros Hr; [reflexivity|]. cbn [p_common_edge_loop sp_common_edge_loop].
+      destruct (side_corner_of_face iF1 lF i Ez (Hr i (or_introl eq_refl))) as (x & Hx & Ecf & Eci & Ea & Eb).
+      rewrite Ea, Eb. cbn [of_opt bind]. rewrite (zth_d_Some _ _ _ Ea), (zth_d_Some _ _ _ Eb).
+      rewrite (opposite_face_correct nv faces m f T Hwf Hm HT). cbn [bind].
+      assert (Ed : sp_direct_face faces (cv x) (ct x) = Some iF1).
+      { unfold sp_direct_face. rewrite (sp_he_self faces (proj2 Hwf) x Hx). congruence. }
+      rewrite Ed. cbn [oz_eqb]. rewrite Z.eqb_refl.
+      destruct (oz_eqb (sp_direct_face faces (ct x) (cv x)) iF2); [reflexivity|].
+      apply IH. intros j Hj. apply Hr. right. exact Hj. }
+    apply G. intros i Hi. apply In_zrange, Hi.
+  Qed.
 End More.
